@@ -6,6 +6,7 @@ import (
 	"sync"
 	"sync/atomic"
 	"testing"
+	"time"
 
 	"github.com/maypok86/otter/v2/internal/deque/queue"
 	"github.com/maypok86/otter/v2/internal/xmath"
@@ -157,6 +158,10 @@ type mpscConcCase struct {
 	PerProd   int    `json:"per_producer"`
 	ConsYield int    `json:"consumer_yield_every"` // consumer pauses every n pops (lets the queue fill up)
 	ProdYield int    `json:"producer_yield_every"`
+	// DrainAfter: the consumer starts only after every producer has finished (total <= capacity), so the queue
+	// passes through every growth step under producer-producer contention.
+	DrainAfter bool `json:"drain_after"`
+	Rounds     int  `json:"rounds"`
 }
 
 func genMPSCConc(t *rapid.T) mpscConcCase {
@@ -170,6 +175,15 @@ func genMPSCConc(t *rapid.T) mpscConcCase {
 	c.PerProd = rapid.IntRange(1, 3000).Draw(t, "per")
 	c.ConsYield = pick(t, "cy", 0, 1, 7, 64)
 	c.ProdYield = pick(t, "py", 0, 0, 3, 50)
+	c.Rounds = 1
+	if rapid.IntRange(0, 2).Draw(t, "drainafter") == 0 {
+		c.DrainAfter = true
+		c.Max = uint32(pick(t, "dmax", 64, 256, 1024, 2048))
+		c.Init = 2
+		c.Producers = rapid.IntRange(2, 16).Draw(t, "dproducers")
+		c.PerProd = int(xmath.RoundUpPowerOf2(c.Max)) / c.Producers
+		c.Rounds = rapid.IntRange(5, 40).Draw(t, "rounds")
+	}
 	return c
 }
 
@@ -178,6 +192,17 @@ func pick[T any](t *rapid.T, label string, xs ...T) T {
 }
 
 func runMPSCConc(c mpscConcCase) outcome {
+	var o outcome
+	for r := 0; r < max(1, c.Rounds); r++ {
+		o = runMPSCConcOnce(c)
+		if o.Err != nil || o.Inconcl {
+			return o
+		}
+	}
+	return o
+}
+
+func runMPSCConcOnce(c mpscConcCase) outcome {
 	var o outcome
 	q := queue.NewMPSC[qItem](c.Init, c.Max)
 	capacity := int64(xmath.RoundUpPowerOf2(c.Max))
@@ -206,8 +231,18 @@ func runMPSCConc(c mpscConcCase) outcome {
 		lastSeq[i] = -1
 	}
 	seen := 0
+	startConsumer := make(chan struct{})
+	if !c.DrainAfter {
+		close(startConsumer)
+	}
 	go func() {
 		defer close(done)
+		<-startConsumer
+		defer func() {
+			if r := recover(); r != nil {
+				setErr(fmt.Errorf("consumer: the queue panicked: %v", r))
+			}
+		}()
 		spins := 0
 		for seen < total {
 			it := q.TryPop()
@@ -241,6 +276,11 @@ func runMPSCConc(c mpscConcCase) outcome {
 		wg.Add(1)
 		go func(p int) {
 			defer wg.Done()
+			defer func() {
+				if r := recover(); r != nil {
+					setErr(fmt.Errorf("producer %d: the queue panicked: %v", p, r))
+				}
+			}()
 			for s := 0; s < c.PerProd; s++ {
 				it := &qItem{p, s}
 				for {
@@ -271,8 +311,45 @@ func runMPSCConc(c mpscConcCase) outcome {
 			}
 		}(p)
 	}
-	wg.Wait()
-	<-done
+	// progress monitor: accepted pushes + completed pops must keep moving; 6 s of wall time without any progress while
+	// goroutines are still trying means the queue is wedged (an element was reserved and never published, or the
+	// consumer follows a bogus chunk): that is a lost event, not a timing matter.
+	finished := make(chan struct{})
+	go func() {
+		wg.Wait()
+		if c.DrainAfter {
+			close(startConsumer)
+		}
+		<-done
+		close(finished)
+	}()
+	lastProgress, idle := int64(-1), 0
+	ticker := time.NewTicker(100 * time.Millisecond)
+	wedged := false
+monitor:
+	for {
+		select {
+		case <-finished:
+			break monitor
+		case <-ticker.C:
+			p := pushAccepted.Load() + popDone.Load() + refusals.Load()
+			if p == lastProgress {
+				idle++
+			} else {
+				idle, lastProgress = 0, p
+			}
+			if idle >= 60 {
+				wedged = true
+				break monitor
+			}
+		}
+	}
+	ticker.Stop()
+	if wedged {
+		o.Err = fmt.Errorf("queue wedged: no push was accepted or refused and no pop completed for 6 s although %d of %d events were accepted and only %d consumed", pushAccepted.Load(), total, popDone.Load())
+		o.Sig = vh.Sig(fmt.Sprint(c))
+		return o
+	}
 	if firstErr == nil {
 		if extra := q.TryPop(); extra != nil {
 			firstErr = fmt.Errorf("after all %d events were consumed the queue returned another element %+v", total, *extra)
